@@ -243,6 +243,9 @@ def entries_for(pid):
         add("c2profile.value_to_string", c2profile.value_to_string, [[A(d + t) for t in (b"", b";")] for d in (b'abc\\"', b"\x00\xffZ")])
         add("c2profile.string_token_to_bytes", lambda s: c2profile.string_token_to_bytes(Token("STRING", s)),
             [[A('"' + body + t + '"') for t in ("", "\\x3b")] for body in ("a\\x41b\\\\", "\\u0041\\n\\e")])
+        # (a literal that is refused after some of it has been decoded, next to valid ones: a refusal leaves nothing behind)
+        add("c2profile.string_token_to_bytes(refused)", lambda s: c2profile.string_token_to_bytes(Token("STRING", s)),
+            [[A('"ab\\x4"'), A('"A"')], [A('"cd\\u00"'), A('"xyz\\x41"')]])
     if pid == "C16":
         rq = [[b"GET /a/b?x=1&y=%41 HTTP/1.1\r\nHost: h\r\nCookie: " + c + b"\r\n\r\n" for c in (b"AAAA", b"AAAB")],
               [b"POST /s?id=7 HTTP/1.1\r\nHost: h\r\nContent-Length: 4\r\n\r\n" + bd for bd in (b"abcd", b"abce")]]
@@ -340,6 +343,10 @@ def entries_for(pid):
         add("c2.encrypt_packet", lambda *a_, **kw: tuple(c2.encrypt_packet(*a_, **kw)), [[A(p, ak_, hk, iv=i) for i in (iv, iv[::-1])] for p in (b"hello", b"x" * 33)])
         add("c2.decrypt_packet", c2.decrypt_packet, [[A(x, ak_, hk) for x in row] for row in pk])
         add("c2.decrypt_packet(keys)", c2.decrypt_packet, [[A(row[0], k, hk, verify=False) for k in (ak_, ak_[::-1])] for row in pk])
+        frames = [[b"".join(x.dumps() for x in row) + t for t in (b"", pk[0][1].dumps())] for row in pk]
+        add("ClientC2Data.iter_encrypted_packets", lambda out: [tuple(x) for x in c2.ClientC2Data(output=out).iter_encrypted_packets()], [[A(x) for x in row] for row in frames])
+        add("ServerC2Data.iter_encrypted_packets", lambda out: [tuple(x) for x in c2.ServerC2Data(output=out).iter_encrypted_packets()],
+            [[A(bytes(x.ciphertext) + bytes(x.signature)) for x in row] for row in pk])
         add("c2.derive_aes_hmac_keys", c2.derive_aes_hmac_keys, [[A(r + t) for t in (b"\x00", b"\x01")] for r in (b"A" * 15, bytes(range(15)))])
     if pid == "C06":
         import random as _r
